@@ -241,11 +241,11 @@ fn exp_class(e: i64) -> &'static str {
     if e == i64::MIN {
         "exp=i64::MIN"
     } else if e < 0 {
-        "exp<0"
+        "exp-negative"
     } else if e == 0 {
-        "exp=0"
+        "exp-zero"
     } else {
-        "exp>0"
+        "exp-positive"
     }
 }
 
